@@ -2881,9 +2881,12 @@ class Union(Generic, ValueSpecBase):
   def _eq(self, other: 'Union') -> bool:
     if len(self.candidates) != len(other.candidates):
       return False
+    # NOTE: compare candidate sets by equality. `other.get_candidate(sc)` picks
+    # the first candidate `sc` is *compatible* with (e.g. `Object(B)` for
+    # `Object(A)` when B subclasses A), which made a union differ from its own
+    # copy.
     for sc in self.candidates:
-      oc = other.get_candidate(sc)
-      if sc != oc:
+      if not any(sc == oc for oc in other.candidates):
         return False
     return True
 
